@@ -767,7 +767,7 @@ class Engine:
 
         if flow_updates:
             for path, topology_update in flow_updates:
-                assoc_path(self.flow, path, flow_updates)
+                assoc_path(self.flow, path, topology_update)
 
         if process_updates:
             for path, process in process_updates:
